@@ -27,6 +27,7 @@ from verif import core
 from verif import dist_k as K
 from verif.translators import tint
 from verif.props import c11_gen as G11
+from verif.props import c11_dist_gen as DG
 
 import optuna
 from optuna import distributions as OD
@@ -1094,7 +1095,7 @@ def replay_negative_witness(chk: core.Check) -> None:
 def search(chk: core.Check) -> None:
     """failing-input search: a larger run of the model-free oracles on the real code"""
     r = random.Random(chk.seed * 31 + 7)
-    drv = core.Driver(G11.DRIVER)
+    drv = core.Driver(DG.DRIVER)
     n = 0
     try:
         for case in gen_cases(r, 6):
@@ -1115,14 +1116,17 @@ def search(chk: core.Check) -> None:
 def main(chk: core.Check) -> int:
     chk.rule = RULE
     translate(chk)
+    DG.regenerate(chk)    # T-dist: optuna/distributions.py -> Generated/DistMethods.lean (Props/C11DistGen proves it equal to the hand model)
     G11.regenerate(chk)   # T-transform: optuna/_transform.py -> Generated/TransformGen.lean (Props/C11Gen proves it equal to the hand model)
     if not getattr(chk, "no_prove", False):
-        chk.prove(G11.prove_modules("C11"))
+        chk.prove(G11.prove_modules("C11") + [DG.MODULE])
         G11.explain_proof_failure(chk)
+        DG.explain_proof_failure(chk)
     beyond: list[Any] = []
     try:
         core.ensure_driver()
-        drv = core.Driver(G11.DRIVER)
+        DG.differential(chk, 1500 if chk.tier == "quick" else 30000)  # generated interpreter vs hand model, synthetic commands
+        drv = core.Driver(DG.DRIVER)
         try:
             scale = 6 if chk.tier == "quick" else 240
             cases = FIXED_CASES + gen_cases(chk.rng, scale)
@@ -1162,7 +1166,7 @@ def replay(chk: core.Check, path: str) -> int:
     w = json.load(open(path))
     case = w["witness"]["case"] if "witness" in w else w["no_longer_checks"][0]["detail"]["case"]
     core.ensure_driver()
-    drv = core.Driver(G11.DRIVER)
+    drv = core.Driver(DG.DRIVER)
     try:
         cx = run_case(drv, case, 0)
     finally:
